@@ -154,8 +154,11 @@ class Snapshot:
 
 # ---------------------------------------------------------------------------
 
+_ENGINE_HASH = sha256_file(os.path.abspath(__file__))
+
+
 def _cache_path(tree_hash, ob):
-    key = sha256_bytes(("%s|%s|%s|%s" % (KANI_VERSION, tree_hash, ob["full_name"], " ".join(KANI_FLAGS))).encode())
+    key = sha256_bytes(("%s|%s|%s|%s|%s|%s" % (KANI_VERSION, _ENGINE_HASH, tree_hash, ob["full_name"], ob["timeout"], " ".join(KANI_FLAGS))).encode())
     return os.path.join(RESULT_CACHE, key + ".json")
 
 
@@ -177,8 +180,9 @@ def run(snap, obs, use_cache=True):
             c["cached"] = True
             results[ob["id"]] = c
         else:
-            todo.setdefault(ob["pkg"], []).append(ob)
-    for pkg, pobs in todo.items():
+            # one invocation per package and timeout class (Kani has one --harness-timeout per run)
+            todo.setdefault((ob["pkg"], ob["timeout"] > 300), []).append(ob)
+    for (pkg, _long), pobs in sorted(todo.items()):
         res = _run_pkg(snap, pkg, pobs)
         for ob in pobs:
             r = res[ob["id"]]
@@ -227,21 +231,27 @@ def _run_pkg(snap, pkg, obs):
     by_h = {r["harness_id"]: r for r in data["verification_results"]["results"]}
     stats = {c["harness_id"]: c for c in data.get("cbmc", [])}
     errd = {e["harness_id"]: e for e in data.get("error_details", [])}
+    should_panic = {h["pretty_name"]: (h.get("attributes") or {}).get("should_panic", False) for h in data.get("harness_metadata", [])}
     for o in obs:
         r = by_h.get(o["full_name"])
         if r is None:
             res[o["id"]] = {"verdict": "undecided", "reason": "harness %s not in kani results (not found / timeout / crash); log %s" % (o["full_name"], logp),
                             "checks": 0, "time_s": 0.0}
             continue
-        res[o["id"]] = classify(o, r, stats.get(o["full_name"]), errd.get(o["full_name"]), out)
+        res[o["id"]] = classify(o, r, stats.get(o["full_name"]), errd.get(o["full_name"]), out,
+                                should_panic.get(o["full_name"], False))
     log("kani: %s done in %.1fs" % (pkg, wall))
+    if os.environ.get("VERIF_VERBOSE"):
+        for o in sorted(obs, key=lambda o: -(res[o["id"]].get("time_s") or 0)):
+            r = res[o["id"]]
+            log("   %-40s %-9s %7.1fs checks=%s %s" % (o["id"], r["verdict"], r.get("time_s") or 0, r.get("checks"), (r.get("reason") or "")[:100]))
     return res
 
 
 _INFRA_CATS = ("unwind", "unsupported_construct", "unsupported", "internal")
 
 
-def classify(ob, r, stat, err, out):
+def classify(ob, r, stat, err, out, should_panic=False):
     checks = r.get("checks", [])
     n = len(checks)
     failed = [c for c in checks if c["status"].lower() == "failure"]
@@ -263,7 +273,17 @@ def classify(ob, r, stat, err, out):
              or "unwinding assertion" in (c.get("description") or "")
              or "is not currently supported by Kani" in (c.get("description") or "")]
     real = [c for c in failed if c not in infra]
-    if status == "success" and not failed and not undet:
+    if should_panic:
+        # #[kani::should_panic]: Kani reports success iff at least one panic is reachable and
+        # nothing but panics failed.  A harness that no longer panics is a failed obligation.
+        if status == "success" and not infra:
+            res.update(verdict="pass")
+        elif infra:
+            res.update(verdict="undecided", reason="tool limit: %s" % brief(infra[0]))
+        else:
+            res.update(verdict="fail", failed_checks=[{"description": "expected panic did not occur (should_panic harness)",
+                       "category": "should_panic", "function": ob["full_name"], "file": None, "line": None}] + [brief(c) for c in real[:4]])
+    elif status == "success" and not failed and not undet:
         if cov_bad:
             res.update(verdict="undecided", reason="vacuity: cover not satisfied: %s" % brief(cov_bad[0]))
         elif n == 0:
@@ -301,8 +321,14 @@ def counterexample(snap, ob):
     except subprocess.TimeoutExpired:
         return {"tests": [], "output_tail": "timeout while extracting counterexample"}
     out = p.stdout
-    tests = _TEST_RE.findall(out)
-    tests = [t for t in tests if "concrete_playback_run" in t]
+    tests = []
+    for t in _TEST_RE.findall(out):
+        if "concrete_playback_run" not in t or "Check for `cover`" in t:
+            continue
+        # drop the generated doc-comment header (a multi-line check description breaks `///`)
+        i = t.find("#[test]")
+        head = " ".join(t[:i].split())[:300]
+        tests.append("// " + head.replace("///", "").strip() + "\n" + t[i:])
     # keep the informative tail of the verifier's output (RESULTS of failed checks)
     tail = []
     keep = False
@@ -334,7 +360,7 @@ def native_replay(snap, ob, tests):
     feats = _features_of(ob["pkg"])
     if feats:
         cmd += ["--features", ",".join(feats)]
-    cmd += ["--", "kani_concrete_playback_"]
+    cmd += ["--", "kani_concrete_playback_" + ob["harness"] + "_"]
     try:
         p = subprocess.run(cmd, cwd=snap.repo, env=env, capture_output=True, text=True, timeout=1800)
     except subprocess.TimeoutExpired:
